@@ -290,6 +290,7 @@ theorem removeLiquidity_units {s s' : St} {signer sym : String} {w : Nat}
   obtain ⟨⟨nD, eD⟩, _, h⟩ := bind_ok h
   obtain ⟨⟨wN, wE, left⟩, _, h⟩ := bind_ok h
   obtain ⟨_, _, h⟩ := bind_ok h
+  obtain ⟨_, _, h⟩ := bind_ok h
   obtain ⟨pool', hpa, h⟩ := bind_ok h
   obtain ⟨hu, hle⟩ := poolAfterRemoval_units (liftM_ok hpa)
   exact finishRemoval_units hinv (optR_ok hp) (optR_ok hlp) hu hle h
@@ -303,6 +304,7 @@ theorem removeLiquidityUnits_units {s s' : St} {signer sym : String} {w : Nat}
   obtain ⟨_, _, h⟩ := bind_ok h
   obtain ⟨⟨nD, eD⟩, _, h⟩ := bind_ok h
   obtain ⟨⟨wN, wE, left⟩, _, h⟩ := bind_ok h
+  obtain ⟨_, _, h⟩ := bind_ok h
   obtain ⟨_, _, h⟩ := bind_ok h
   obtain ⟨pool', hpa, h⟩ := bind_ok h
   obtain ⟨hu, hle⟩ := poolAfterRemoval_units (liftM_ok hpa)
